@@ -120,6 +120,7 @@ type VC struct {
 	finalized bool
 	loopFrames []loopFrame
 	memInfo    map[string]memStore
+	obAsserts  map[int]bool // assertions that restate an earlier obligation
 	constGlobalVals map[string]Val
 }
 
@@ -268,8 +269,12 @@ func (vc *VC) oblige(st *State, o *Obligation, formula string) {
 	}
 	vc.counts[o.Kind]++
 	vc.obs = append(vc.obs, o)
-	// later obligations may assume this one held
+	// later obligations may assume this one held (covers do not: see query)
 	if !o.Cover {
+		if vc.obAsserts == nil {
+			vc.obAsserts = map[int]bool{}
+		}
+		vc.obAsserts[len(vc.asserts)] = true
 		vc.asserts = append(vc.asserts, implies(st.guard, formula))
 	}
 }
